@@ -221,7 +221,7 @@ class Repo:
                     t = self.mod(sub)
                     return t, t.tree
             return r
-        for dotted in module.star_imports:
+        for dotted in reversed(module.star_imports):   # a later star import shadows an earlier one
             rel = self.dotted_to_rel(dotted)
             if rel is None:
                 continue
